@@ -25,6 +25,7 @@ int verif_errno;
  * quantifier sits at the outermost level). */
 unsigned g_k;      /* ghost word index */
 unsigned g_i;      /* ghost bit-in-word index (meaningful when < 64) */
+int q_case;       /* ghost selector of the hypothesis in multi-case quantified contracts */
 unsigned g_j;      /* ghost array-entry index */
 unsigned g_k2;     /* second ghost word index (two-point properties) */
 unsigned g_i2;     /* second ghost bit-in-word index */
@@ -39,7 +40,7 @@ char nondet_char(void);
 /* Harnesses assign the ghosts from nondet values (so that counterexample traces
  * show them, and so that plain non-DFCC harnesses do not see zero-initialised statics). */
 #define VERIF_GHOSTS() do { g_k = nondet_unsigned(); g_i = nondet_unsigned(); g_j = nondet_unsigned(); \
-                            g_k2 = nondet_unsigned(); g_i2 = nondet_unsigned(); VERIF_WIT_HAVOC(); } while (0)
+                            g_k2 = nondet_unsigned(); g_i2 = nondet_unsigned(); q_case = nondet_int(); VERIF_WIT_HAVOC(); } while (0)
 
 /* Witness mode (-DVERIF_WITNESS): only used after an obligation has been refuted, to make
  * the verifier's counterexample carry the complete entry state in harness-visible
